@@ -119,6 +119,7 @@ class GenB(GenA):
             c = self.to_call(ev)
             if c is None:
                 continue
+            self.maybe_subslice(c)
             if c['c'] == 'dilute' and c.get('name') and self.run.known is not None \
                     and self.run.known.active('recipe_dilute_rename') and not self.p.get('allow_known') \
                     and self.p.get('prop') in ('C09', 'C15', 'C17', 'C18', None):
@@ -128,6 +129,42 @@ class GenB(GenA):
                 c['tgt'] = [c['tgt'][0]]        # known finding: slices are only filled by its witness
             return c
         return None
+
+    def maybe_subslice(self, c):
+        """Sometimes address a region as a slice of a slice (plate[1:4][0:2, 0:1]); only where the library pairs wells by
+        iteration (remove, container <-> slice), not by the cached shape of the slice."""
+        rng = self.rng
+        if rng.random() >= self.p.get('p_subslice', 0.08):
+            return
+        k = c['c']
+        slots = []
+        if k == 'remove':
+            slots = ['tgt']
+        elif k == 'transfer':
+            rep = self.run.rep
+            s_is_c = isinstance(self.run.eager.get(c['src'][0]), rep.Container)
+            d_is_c = isinstance(self.run.eager.get(c['dst'][0]), rep.Container)
+            if s_is_c and not d_is_c:
+                slots = ['dst']
+            elif d_is_c and not s_is_c:
+                slots = ['src']
+        for slot in slots:
+            ref = c[slot]
+            if len(ref) < 2 or ref[1] is None or ref[1].get('k') not in ('rect', 'row'):
+                continue
+            o = self.run.eager.get(ref[0])
+            if o is None:
+                continue
+            cells, shape = M.select(ref[1], (o.n_rows, o.n_columns))
+            if shape is None or shape[0] * shape[1] < 2:
+                continue
+            a = rng.randint(0, shape[0] - 1)
+            b = rng.randint(a + 1, shape[0])
+            c0 = rng.randint(0, shape[1] - 1)
+            c1 = rng.randint(c0 + 1, shape[1])
+            if (b - a, c1 - c0) == shape:
+                continue
+            ref[1] = {'k': 'sub', 'base': ref[1], 'sub': [[a, b], [c0, c1]]}
 
     def step_using(self, name):
         """A feasible-looking step that uses the declared object `name` (to satisfy 'every declared object is used')."""
